@@ -23,21 +23,25 @@ OpMat(kind, name) ==
       [] name = "Sigmay" -> << <<Z0, <<0, -1>>>>, <<<<0, 1>>, Z0>> >>
       [] name = "Sp" -> << <<Z0, I1>>, <<Z0, Z0>> >>
       [] name = "Sm" -> << <<Z0, Z0>>, <<I1, Z0>> >>
-      [] name = "JW" -> IF kind = "F" THEN << <<I1, Z0>>, <<Z0, <<-1, 0>>>> >> ELSE MId(Dim(kind))
+      [] name = "JW" -> IF kind = "F" THEN << <<I1, Z0>>, <<Z0, <<-1, 0>>>> >>
+                        ELSE IF kind = "E" THEN << <<I1, Z0, Z0, Z0>>, <<Z0, <<-1, 0>>, Z0, Z0>>, <<Z0, Z0, <<-1, 0>>, Z0>>, <<Z0, Z0, Z0, I1>> >>
+                        ELSE MId(Dim(kind))
       [] name = "C" -> << <<Z0, I1>>, <<Z0, Z0>> >>
       [] name = "Cd" -> << <<Z0, Z0>>, <<I1, Z0>> >>
       [] name = "N" -> << <<Z0, Z0>>, <<Z0, I1>> >>
+      [] name = "Ntot" -> << <<Z0, Z0, Z0, Z0>>, <<Z0, I1, Z0, Z0>>, <<Z0, Z0, I1, Z0>>, <<Z0, Z0, Z0, <<2, 0>>>> >>
       \* "Sz": spin-1 diag(-1, 0, 1); on a spin-1/2 site TWICE the operator (the harness halves per occurrence)
       [] name = "Sz" -> IF kind = "T" THEN << <<<<-1, 0>>, Z0, Z0>>, <<Z0, Z0, Z0>>, <<Z0, Z0, I1>> >>
                         ELSE << <<I1, Z0>>, <<Z0, <<-1, 0>>>> >>
 OpNames(kind, cons) ==
     CASE kind = "H" -> IF cons = "U1" THEN {"Sigmaz", "Sp", "Sm"} ELSE {"Sigmaz", "Sigmax", "Sigmay", "Sp", "Sm"}
       [] kind = "F" -> {"C", "Cd", "N"}
+      [] kind = "E" -> {"Ntot"}
       [] OTHER -> {"Sz"}
 NeedsJW(kind, name) == kind = "F" /\ name \in {"C", "Cd"}
 IsUnitary(name) == name \in {"Id", "Sigmaz", "Sigmax", "Sigmay", "JW"}
 \* occupation number used for fermionic signs (Site.JW_exponent)
-NFerm(kind, s) == IF kind = "F" THEN s ELSE 0
+NFerm(kind, s) == IF kind = "F" THEN s ELSE IF kind = "E" THEN (IF s \in {1, 2} THEN 1 ELSE 0) ELSE 0
 
 \* window sites (0-based) equivalent to site i
 WinSites(Rr, i) == {w \in 0..(NWin(Rr) - 1) : IF Inf(Rr) THEN w % NL(Rr) = i % NL(Rr) ELSE w = i}
@@ -112,6 +116,7 @@ LocalOp2(i, n1, n2, rn) ==
 OpSeq(kind, cons) ==
     CASE kind = "H" -> IF cons = "U1" THEN <<"Sigmaz", "Id", "Sigmaz", "Sp">> ELSE <<"Sigmax", "Sigmaz", "Id", "Sigmay", "Sm">>
       [] kind = "F" -> <<"JW", "Id", "N", "JW">>
+      [] kind = "E" -> <<"Id", "JW", "Ntot">>
       [] OTHER -> <<"Id", "Sz">>
 \* v = 0: unitary operators only (the unitary ones are in the leading positions)
 ProductOpNames(Rr, v) == [i \in 1..NL(Rr) |-> LET sq == OpSeq(Rr.kinds[i], Rr.cons) IN
@@ -365,14 +370,15 @@ ExtractEnlarged(first, lst, i, name, nf, nl) ==
 
 -----------------------------------------------------------------------------
 Start9 == phase = "init" /\
-    \/ \E bc \in BCs, n \in 1..MaxL, cp \in 1..2, kp \in 1..5, cn \in 0..2, fp \in 1..6, v \in 0..1, cx \in 0..1, nr \in {1, 3} :
-            /\ (bc # "infinite" => n >= 2) /\ (nr = 3 => (fp + v) % 3 = 0) /\ New(bc, n, cp, kp, cn, fp, v, cx, nr)
+    \/ \E bc \in BCs, n \in 1..MaxL, cp \in 1..2, kp \in 1..6, cn \in 0..2, fp \in 1..6, v \in 0..1, cx \in 0..1, nr \in {1, 3} :
+            /\ (bc # "infinite" => n >= 2) /\ (nr = 3 => (fp + v) % 3 = 0) /\ (kp = 6 => cn = 0)
+            /\ New(bc, n, cp, kp, cn, fp, v, cx, nr)
     \/ \E bc \in BCs, n \in 2..MaxL, kp \in {2}, cn \in {1, 2}, f \in {"B", "A"}, v \in 0..1, how \in {"int", "label"} :
             Product(bc, n, kp, cn, f, v, how)
 DoStart == Start9
-DoLocalOp == Live /\ \E i \in 0..(MaxL - 1), name \in {"Sigmaz", "Sigmax", "Sigmay", "Sp", "Sm", "C", "Cd", "N", "Sz"},
+DoLocalOp == Live /\ \E i \in 0..(MaxL - 1), name \in {"Sigmaz", "Sigmax", "Sigmay", "Sp", "Sm", "C", "Cd", "N", "Sz", "Ntot"},
                 uni \in {"true", "auto", "false"}, rn \in BOOLEAN :
-                /\ (uni = "false" => (rn /\ name \in {"Sigmaz", "N", "Sz"}))     \* "false" only adds the forced canonical_form
+                /\ (uni = "false" => (rn /\ name \in {"Sigmaz", "N", "Sz", "Ntot"}))     \* "false" only adds the forced canonical_form
                 /\ (rn => (uni = "false" \/ (uni = "auto" /\ ~IsUnitary(name))))   \* renormalize only matters with canonical_form
                 /\ (nops >= 1 => ((i + Seed) % 2 = 0 /\ uni # "false" /\ ~rn))        \* later steps: a thinner alphabet
                 /\ LocalOp(i, name, uni, rn)
